@@ -249,4 +249,27 @@ theorem C16_code_registry_sound :
     ∀ e ∈ Atsim.Gen.Logic.tabulation_factories, e.2.2.contains "DLPoly_PairTabulation" = true → e.2.1 = "DLPOLY_PairTabulationFactory" := by
   decide
 
+/-! ### which of `x`/`y`/`xy` a `[Table-Form]` section may give, regenerated from `_TableFormSection._parse_data` / `_parse_x_y` / `_parse_xy` -/
+
+/-- **code tie**: the presence test of `_parse_data` is the first stage of the model's `validateTable` - same three complaints, same order -/
+theorem C16_code_parse_data (useXandY useXY : String → List String → String) (name : String) (keys : List String) :
+    Atsim.Gen.Logic.parse_data useXandY useXY name keys =
+      (if keys.contains "x" || keys.contains "y" then
+         (if !(keys.contains "x" && keys.contains "y") then .error Atsim.Gen.Logic.TableErr.onlyOneOfXY
+          else if keys.contains "xy" then .error Atsim.Gen.Logic.TableErr.bothForms
+          else .ok (useXandY name keys))
+       else if keys.contains "xy" then .ok (useXY name keys)
+       else .error Atsim.Gen.Logic.TableErr.noData) := by
+  unfold Atsim.Gen.Logic.parse_data
+  cases keys.contains "x" <;> cases keys.contains "y" <;> cases keys.contains "xy" <;> simp
+
+/-- **code tie**: `_parse_x_y` accepts exactly lists of equal length and returns them unchanged -/
+theorem C16_code_parse_x_y (x y : List Rat) :
+    Atsim.Gen.Logic.parse_x_y x y = (if x.length = y.length then .ok (x, y) else .error Atsim.Gen.Logic.TableErr.lengthMismatch) := by
+  unfold Atsim.Gen.Logic.parse_x_y
+  by_cases h : x.length = y.length
+  · simp [h]
+  · have h' : ¬ ((x.length : Int) = (y.length : Int)) := by omega
+    simp [h, h']
+
 end Atsim.C16
